@@ -112,12 +112,12 @@ def gen_instant(rng, toks):
                        rng.choice([0, 7, 59]), rng.choice([0, 100000, 120000, 123000, 999000, 5000]))
 
 
-STRS = ['x', 'hello world', 'é', 'ß∂', 'a"b', "it's", ' lead', 'NULLISH', '0', 'true', '雪']
+STRS = ['x', 'hello world', 'é', 'ß∂', 'a"b', "it's", ' lead', 'NULLISH', '0', 'true', '雪', 'c1\x80ctl', 'apc\x9fx', 'ÿþ']
 
 
 def gen_table(rng):
     delim = rng.choice([',', ',', '|', '\t', ';'])
-    enc = rng.choice(['utf-8', 'utf-8', 'latin-1', 'utf-16'])
+    enc = rng.choice(['utf-8', 'utf-8', 'latin-1', 'utf-16', 'iso-8859-1', 'latin1', 'ISO-8859-1'])
     header = rng.random() < 0.7
     hdr_style = rng.choice(['header', 'headerRowCount'])
     ncols = rng.randint(1, 6)
@@ -154,7 +154,7 @@ def gen_table(rng):
                 txt.append('' if v is None else repr(v))
         elif k == 'string':
             col['datatype'] = 'string'
-            pool = [s for s in STRS if enc != 'latin-1' or all(ord(c) < 256 for c in s)]
+            pool = [s for s in STRS if not enc.lower().replace('-', '').replace('_', '') in ('latin1', 'iso88591') or all(ord(c) < 256 for c in s)]
             for _ in range(nrows):
                 v = None if rng.random() < null_p else rng.choice(pool)
                 vals.append(v)
